@@ -40,8 +40,14 @@ def histories(draw, viewers=False, residents=False, inc_ok=False,
               max_ticks=6, reject_ok=False, step_op_ok=True,
               tuple_delete=False):
     counter = [0]
+    graveyard = []      # keys that existed in an earlier tick and are gone now
 
     def fresh():
+        # now and then re-use the key of a compartment that was deleted,
+        # divided or otherwise removed in an EARLIER tick
+        if graveyard and draw(st.integers(0, 3)) == 0:
+            k = graveyard.pop(draw(st.integers(0, len(graveyard) - 1)))
+            return k
         counter[0] += 1
         return 'n%d' % counter[0]
 
@@ -166,7 +172,13 @@ def histories(draw, viewers=False, residents=False, inc_ok=False,
                           'state': {}}]
                 expect_reject = True
         if not expect_reject:
+            before_keys = {k for p in PORTS for k in ref.coll(model, p)}
             ref.apply_batch(model, batch)
+            after_keys = {k for p in PORTS for k in ref.coll(model, p)}
+            for k in sorted(before_keys - after_keys):
+                if k != 'perm' and k not in graveyard:
+                    graveyard.append(k)
+            graveyard[:] = [k for k in graveyard if k not in after_keys]
         ticks.append(batch)
     spec = {'init': init, 'residents': res0, 'ticks': ticks,
             'op_is_step': bool(step_op_ok and not expect_reject
